@@ -49,6 +49,9 @@ pub struct WorkerOpts {
     pub zombie_check_interval: u32,
     pub evict_on_queue_full: bool,
     pub max_connections_per_ip: u64,
+    /// command channel buffer sizes (initial, ceiling) of the worker
+    pub command_buffer_size: u64,
+    pub max_command_buffer_size: u64,
     /// integer knobs for the verif hooks (e.g. "front_sndbuf"), set before the worker starts
     pub knobs: Vec<(String, i64)>,
     /// requests replayed as the worker's initial state
@@ -72,6 +75,8 @@ impl Default for WorkerOpts {
             zombie_check_interval: 1800,
             evict_on_queue_full: false,
             max_connections_per_ip: 0,
+            command_buffer_size: 1_000_000,
+            max_command_buffer_size: 2_000_000,
             knobs: Vec::new(),
             initial_state: ConfigState::new(),
             listeners: None,
@@ -96,6 +101,8 @@ impl WorkerOpts {
         sc.zombie_check_interval = self.zombie_check_interval;
         sc.evict_on_queue_full = Some(self.evict_on_queue_full);
         sc.max_connections_per_ip = Some(self.max_connections_per_ip);
+        sc.command_buffer_size = self.command_buffer_size;
+        sc.max_command_buffer_size = self.max_command_buffer_size;
         sc.log_level = "error".to_owned();
         sc
     }
